@@ -570,6 +570,10 @@ def make_abort_exc(kind: str) -> BaseException:
         return MemoryError("injected allocation failure")
     if kind == "KeyboardInterrupt":
         return KeyboardInterrupt()
+    if kind in ("InterruptedError", "TimeoutError", "BlockingIOError", "ConnectionResetError"):
+        import builtins
+
+        return getattr(builtins, kind)(4, "injected I/O fault")
     if kind in ("OSError", "RuntimeError", "KeyError", "ValueError", "TypeError"):
         import builtins
 
